@@ -2,7 +2,12 @@
 scorer `__call__` and fold-in helper (DESIGN 2.3 A).  Fail-closed: an unlisted scorer class, a look-up whose
 receiver cannot be classified, a non-constant `missing=` argument or a listed function that has disappeared
 raise TranslateError; a look-up with the wrong policy or a result that is not `ItemList(<items>, scores=...)`
-is recorded as such and makes theorem `sites_tolerant` fail."""
+is recorded as such and makes theorem `sites_tolerant` fail.
+
+Also regenerates coq/Gen/C04_numbers.v: the rule `ItemList.numbers(vocabulary=V)` applies when V is not the list's own
+vocabulary object (what every scorer calls on its candidates and histories).  `ItemList.ids` and `ItemList.numbers` are
+compared statement by statement (ast.unparse-normalised) with what Model/C04_repr.v models; anything else raises
+TranslateError."""
 
 from __future__ import annotations
 
@@ -182,10 +187,76 @@ def extract(src: Path) -> tuple[list[str], list[str]]:
     return sites, calls
 
 
+# ---------------------------------------------------------------------------------------------
+# ItemList.ids() / ItemList.numbers(vocabulary=...): how a list resolves its items for a scorer
+# ---------------------------------------------------------------------------------------------
+
+NUMBERS_HEADER = """(* GENERATED on every run by harness/translate/c04.py from src/lenskit/data/items.py
+   (ItemList.ids, ItemList.numbers) -- do not edit. *)
+From LK Require Import Model.C04_repr.
+
+"""
+
+# the statements Model/C04_repr.v models (`ids_of`, `own_numbers`, `numbers_in`), normalised by ast.unparse
+IDS_BODY = [
+    "if self._ids is None:\n"
+    "    if self._vocab is None:\n"
+    "        raise RuntimeError('item IDs not available (no IDs or vocabulary provided)')\n"
+    "    assert self._numbers is not None\n"
+    "    self._ids = self._vocab.ids(self._numbers.numpy())",
+    "return self._ids",
+]
+FOREIGN_TEST = "vocabulary is not None and vocabulary is not self._vocab"
+FOREIGN_THROUGH_IDS = [
+    "ids = self.ids()",
+    "mta = MTArray(vocabulary.numbers(ids, missing=missing))",
+    "return mta.to(format)",
+]
+OWN_BODY = [
+    "if self._numbers is None:\n"
+    "    if self._vocab is None:\n"
+    "        raise RuntimeError('item numbers not available (no IDs or vocabulary provided)')\n"
+    "    assert self._ids is not None\n"
+    "    self._numbers = MTArray(self._vocab.numbers(self._ids, missing='negative'))",
+    "if missing == 'error' and np.any(self._numbers.numpy() < 0):\n"
+    "    raise KeyError('item IDs')",
+    "return self._numbers.to(format)",
+]
+
+
+def body_of(fn: ast.FunctionDef) -> list[ast.stmt]:
+    b = list(fn.body)
+    if b and isinstance(b[0], ast.Expr) and isinstance(b[0].value, ast.Constant) and isinstance(b[0].value.value, str):
+        b = b[1:]
+    return b
+
+
+def numbers_rule(src: Path) -> str:
+    """Fail-closed reading of ItemList.ids / ItemList.numbers: the only shapes accepted are the ones the model has."""
+    rel = "data/items.py"
+    tree = parse(src / "lenskit" / rel)
+    ids = [ast.unparse(s) for s in body_of(find_def(tree, "ItemList", "ids"))]
+    if ids != IDS_BODY:
+        raise TranslateError(f"{rel}: ItemList.ids is not the modelled statement list: {ids}")
+    body = body_of(find_def(tree, "ItemList", "numbers"))
+    if not body or not isinstance(body[0], ast.If) or body[0].orelse or ast.unparse(body[0].test) != FOREIGN_TEST:
+        raise TranslateError(f"{rel}: ItemList.numbers does not start with the foreign-vocabulary test `{FOREIGN_TEST}`")
+    foreign = [ast.unparse(s) for s in body[0].body]
+    if foreign != FOREIGN_THROUGH_IDS:
+        raise TranslateError(f"{rel}: ItemList.numbers, foreign-vocabulary branch is not `translate the identifiers` "
+                             f"(ids = self.ids(); vocabulary.numbers(ids, missing=missing)): {foreign}")
+    own = [ast.unparse(s) for s in body[1:]]
+    if own != OWN_BODY:
+        raise TranslateError(f"{rel}: ItemList.numbers, own-vocabulary part is not the modelled statement list: {own}")
+    return (NUMBERS_HEADER + "(* ItemList.numbers(vocabulary=V) with V not the list's own vocabulary object: "
+            + "; ".join(FOREIGN_THROUGH_IDS) + " *)\n"
+            "Definition foreign_rule_in_source : foreign_rule := ThroughIds.\n")
+
+
 def translate(src: Path) -> dict[str, str]:
     sites, calls = extract(src)
     text = HEADER
     text += "Definition sites : list site :=\n  [ " + "\n  ; ".join(sites) + " ].\n\n"
     text += "(* the scorer entry points inspected (every class of the scorer files that defines __call__(…, items)) *)\n"
     text += "Definition entry_points : list (string * string) :=\n  [ " + "\n  ; ".join(calls) + " ].\n"
-    return {"Gen/C04_sites.v": text}
+    return {"Gen/C04_sites.v": text, "Gen/C04_numbers.v": numbers_rule(src)}
